@@ -16,9 +16,9 @@ EXPLANATION = (
 
 
 def run(ctx: Ctx) -> None:
-    C.rule_ts_fut(ctx)
-    C.rule_aff_avg(ctx)
-    C.rule_coh_src(ctx)
-    C.rule_dom_phase(ctx)
-    C.rule_enum_strat(ctx)
-    C.rule_enum_compute(ctx)
+    ctx.do(C.rule_ts_fut)
+    ctx.do(C.rule_aff_avg)
+    ctx.do(C.rule_coh_src)
+    ctx.do(C.rule_dom_phase)
+    ctx.do(C.rule_enum_strat)
+    ctx.do(C.rule_enum_compute)
